@@ -219,6 +219,24 @@ func c19Outage(w *W) {
 			if !clear || !bt.Before(stopAt.Add(-100*time.Millisecond)) {
 				continue
 			}
+			// judged only if some write started after the boundary and completed before the next outage
+			// began: then a rotation attempt certainly happened while the directory was there
+			nextOut := stopAt
+			for _, o := range outages {
+				if o.from.After(bt) && o.from.Before(nextOut) {
+					nextOut = o.from
+				}
+			}
+			attempted := false
+			for _, rc := range recs {
+				if rc.start.After(bt) && rc.start.Before(bt.Add(interval)) && rc.end.Before(nextOut.Add(-5*time.Millisecond)) {
+					attempted = true
+					break
+				}
+			}
+			if !attempted {
+				continue
+			}
 			has := false
 			for _, ft := range fileTimes {
 				if !ft.Before(bt.Truncate(time.Second)) && ft.Before(bt.Add(interval)) {
